@@ -62,7 +62,7 @@ pub fn main(args: &[String]) -> i32 {
             let level: u8 = std::env::var("NEST_LEVEL").ok().and_then(|s| s.parse().ok()).unwrap_or(6);
             let mut child = worker::Child::spawn("C02", &root);
             let mut probe = |kind: &str, depth: u32, closed: bool| -> Option<String> {
-                let case = Case { input: Input::Nest { kind: kind.to_string(), depth, closed, capped: false }, level, doc: true, ext: 0, cache: false, special: false };
+                let case = Case { input: Input::Nest { kind: kind.to_string(), depth, closed, capped: false, filler: 0, period: 0 }, level, doc: true, ext: 0, cache: false, special: false };
                 let req = serde_json::to_string(&case).unwrap();
                 match child.call(&req, 300) {
                     worker::Reply::Line(_) => None,
